@@ -178,19 +178,18 @@ theorem getattr_index {α : Type} [Neg α] [Zero α] (alg : Src.Alg) (ks : List 
   · simp [e]
   · simp [e]
 
-/-- **attribute access by any spelling**: for an admissible configuration (one-digit labels below 14), a multivector given by its
-    key tuple and value list of the same length, and any spelling over labels below 14 — canonical, permuted, with repeated or foreign
+/-- **attribute access by any spelling**: for an admissible configuration (labels are single hex digits), a multivector given by its
+    key tuple and value list of the same length, and any spelling over single hex digits — canonical, permuted, with repeated or foreign
     letters — the translated `__getattr__` returns the model's coefficient (0 for an absent or foreign blade, the sign of the
     permutation otherwise) and never raises -/
-theorem mv_getattr_eq {α : Type} [Neg α] [Zero α] (c : Cfg) (h : Cfg.Adm c) (h14 : ∀ v ∈ c.vecs, v < 14)
-    (ks : List Nat) (vs : List α) (hlen : ks.length = vs.length) (sp : List Nat) (hsp : ∀ l ∈ sp, l < 14) :
+theorem mv_getattr_eq {α : Type} [Neg α] [Zero α] (c : Cfg) (h : Cfg.Adm c) (h16 : ∀ v ∈ c.vecs, v < 16)
+    (ks : List Nat) (vs : List α) (hlen : ks.length = vs.length) (sp : List Nat) (hsp : ∀ l ∈ sp, l < 16) :
     Src.mv_getattr (algOf c) (ks.map Int.ofNat) vs (pyName sp) = .ok (Con.getattr c (ks, vs) sp) := by
-  have hb16 : ∀ n ∈ c.basis, ∀ l ∈ n, l < 16 := fun n hn l hl => by
-    have := h14 l (h.names_letters n hn l hl); omega
-  have hs16 : ∀ l ∈ sp, l < 16 := fun l hl => by have := hsp l hl; omega
+  have hb16 : ∀ n ∈ c.basis, ∀ l ∈ n, l < 16 := fun n hn l hl => h16 l (h.names_letters n hn l hl)
+  have hs16 : ∀ l ∈ sp, l < 16 := hsp
   have h1 := pyName_ne_arrPrio sp
   have h2 := isBladeName_pyName sp hs16
-  have h3 := blade2canon_eq c h h14 sp hsp
+  have h3 := blade2canon_eq c h h16 sp hsp
   unfold Con.getattr
   cases hb : c.blade2canon sp with
   | none =>
@@ -252,7 +251,7 @@ theorem getattr_nameOf {α : Type} [Neg α] [Zero α] (c : Cfg) (h : Cfg.Adm c) 
   | some p => rfl
 
 /-- one step of the comprehensions of `asfullmv` and `grade`: `getattr(self, bin2canon[k])` -/
-theorem getattr_key {α : Type} [Neg α] [Zero α] (c : Cfg) (h : Cfg.Adm c) (h14 : ∀ v ∈ c.vecs, v < 14)
+theorem getattr_key {α : Type} [Neg α] [Zero α] (c : Cfg) (h : Cfg.Adm c) (h16 : ∀ v ∈ c.vecs, v < 16)
     (x : MV α) (k : Nat) (hk : k < 2 ^ c.d) :
     (do let n ← Py.dictGet (algOf c).bin2canon (Int.ofNat k)
         Src.mv_getattr (algOf c) ((x.map (·.1)).map Int.ofNat) (x.map (·.2)) n : Py.M α) =
@@ -260,7 +259,7 @@ theorem getattr_key {α : Type} [Neg α] [Zero α] (c : Cfg) (h : Cfg.Adm c) (h1
   rw [dictGet_bin2canon c h k hk]
   change Src.mv_getattr (algOf c) ((x.map (·.1)).map Int.ofNat) (x.map (·.2)) (pyName (c.nameOf k)) = _
   have hm := (Cfg.nameOf_mem c h k hk).1
-  rw [mv_getattr_eq c h h14 _ _ (by simp) _ (fun l hl => h14 l (h.names_letters _ hm l hl)), getattr_nameOf c h x k hk]
+  rw [mv_getattr_eq c h h16 _ _ (by simp) _ (fun l hl => h16 l (h.names_letters _ hm l hl)), getattr_nameOf c h x k hk]
 
 theorem mapM_ok {α β : Type} (l : List α) (f : α → Py.M β) (g : α → β) (h : ∀ a ∈ l, f a = .ok (g a)) :
     l.mapM f = .ok (l.map g) := by
@@ -314,7 +313,7 @@ theorem range_pairwise (n : Nat) : (List.range n).Pairwise (· < ·) := List.pai
 /-! ### `asfullmv` -/
 
 /-- `asfullmv(canonical)`: all blades of the algebra in canonical resp. binary order, absent ones as 0 -/
-theorem mv_asfullmv_eq {α : Type} [Neg α] [Zero α] (c : Cfg) (h : c.admissible = true) (h14 : ∀ v ∈ c.vecs, v < 14)
+theorem mv_asfullmv_eq {α : Type} [Neg α] [Zero α] (c : Cfg) (h : c.admissible = true)
     (x : MV α) (canonical : Bool) :
     Src.mv_asfullmv (algOf c) ((x.map (·.1)).map Int.ofNat) (x.map (·.2)) canonical =
       .ok (((asfullmv c canonical x).map (·.1)).map Int.ofNat, (asfullmv c canonical x).map (·.2)) := by
@@ -328,7 +327,7 @@ theorem mv_asfullmv_eq {α : Type} [Neg α] [Zero α] (c : Cfg) (h : c.admissibl
         .ok (keys.map Int.ofNat, keys.map fun k => (lookupKey x k).getD 0) := by
     intro keys hk
     rw [mapM_map_ok keys Int.ofNat _ (fun k => (lookupKey x k).getD 0)
-      (fun k hkm => getattr_key c ha h14 x k (hk k hkm))]
+      (fun k hkm => getattr_key c ha (vecs16_of_admissible c h) x k (hk k hkm))]
     rfl
   have hres : ∀ keys : List Nat,
       (((keys.map fun k => (k, (lookupKey x k).getD 0)).map (·.1)).map Int.ofNat,
@@ -412,7 +411,7 @@ theorem nodup_map_ofNat (l : List Nat) (h : l.Nodup) : (l.map Int.ofNat).Nodup :
   exact h.imp (fun hab e => hab (Int.ofNat.inj e))
 
 /-- `grade(*gs)` for a strictly increasing tuple of grades in 0..d: the stored coefficients of those grades in canonical order -/
-theorem mv_grade_eq {α : Type} [Neg α] [Zero α] (c : Cfg) (h : c.admissible = true) (h14 : ∀ v ∈ c.vecs, v < 14)
+theorem mv_grade_eq {α : Type} [Neg α] [Zero α] (c : Cfg) (h : c.admissible = true)
     (x : MV α) (gs : List Nat) (hgs : gs.Pairwise (· < ·)) (hd : ∀ g ∈ gs, g ≤ c.d) :
     Src.mv_grade (algOf c) ((x.map (·.1)).map Int.ofNat) (x.map (·.2)) (gs.map Int.ofNat) =
       .ok (((gradeSel c gs x).map (·.1)).map Int.ofNat, (gradeSel c gs x).map (·.2)) := by
@@ -439,7 +438,7 @@ theorem mv_grade_eq {α : Type} [Neg α] [Zero α] (c : Cfg) (h : c.admissible =
       let v ← Src.mv_getattr (algOf c) ((x.map (·.1)).map Int.ofNat) (x.map (·.2)) n
       pure (Int.ofNat k, v) : Py.M (Int × α)) = .ok (Int.ofNat k, (lookupKey x k).getD 0) := by
     intro k hk
-    have := getattr_key c ha h14 x k (hKlt k hk)
+    have := getattr_key c ha (vecs16_of_admissible c h) x k (hKlt k hk)
     rw [← bind_assoc, this]
     rfl
   rw [mapM_map_ok K Int.ofNat _ (fun k => (Int.ofNat k, (lookupKey x k).getD 0)) hstep]
